@@ -419,6 +419,65 @@ def attribute(mod, finding: dict, spec, failure: dict) -> bool:
 
 
 # --------------------------------------------------------------------------
+# Coverage-guided stage (atheris / libFuzzer), see vp/fuzz.py
+# --------------------------------------------------------------------------
+FUZZ_DEFAULT = {"quick": 0, "thorough": 12_000}   # libFuzzer -runs per shard
+
+
+def fuzz_stage(mod, prop_id: str, tier: str, seed: int, jobs: int) -> List[dict]:
+    """Run `jobs` libFuzzer shards over the property's own strategy and return
+    their recorder dumps.  A shard that cannot start (atheris missing) or does
+    not finish is reported in the notes as inconclusive, never as a violation."""
+    runs = getattr(mod, "FUZZ", FUZZ_DEFAULT).get(tier, 0)
+    if os.environ.get("VERIF_FUZZ_RUNS"):
+        runs = int(os.environ["VERIF_FUZZ_RUNS"])
+    if runs <= 0 or hasattr(mod, "worker"):
+        return []
+    import shutil
+    import subprocess
+    import tempfile
+
+    os.makedirs(OUT, exist_ok=True)
+    work = tempfile.mkdtemp(prefix=f".fuzz_{prop_id}_", dir=OUT)
+    note = Recorder()
+    try:
+        procs = []
+        env = dict(os.environ, PYTHONHASHSEED="0", PYTHONPATH=ROOT)
+        for k in range(jobs):
+            out = os.path.join(work, f"shard{k}.json")
+            cmd = [sys.executable, "-m", "vp.fuzz", prop_id, "--tier", tier, "--runs", str(runs),
+                   "--seed", str(seed * 1009 + k + 1), "--out", out]
+            procs.append((out, subprocess.Popen(cmd, cwd=ROOT, env=env, stdout=subprocess.DEVNULL,
+                                                stderr=subprocess.PIPE, text=True)))
+        parts = []
+        finished = 0
+        for out, p in procs:
+            try:
+                _o, err = p.communicate(timeout=6 * 3600)
+            except subprocess.TimeoutExpired:
+                p.kill()
+                err = "timeout"
+            if os.path.exists(out):
+                with open(out) as f:
+                    d = json.load(f)
+                # evaluations / classes of the fuzz stage are reported apart
+                n = d["notes"].pop("fuzz_executions", 0)
+                d["notes"] = {"fuzz_executions": n, "fuzz_evaluations": d["evaluations"]}
+                parts.append(d)
+                finished += 1 if p.returncode == 0 else 0
+            else:
+                note.notes["fuzz_unavailable"] = (err or "")[-300:]
+        note.notes["fuzz_shards"] = len(procs)
+        note.notes["fuzz_shards_finished"] = finished
+        note.exhaustive_parts.append(
+            f"coverage-guided stage: {len(procs)} libFuzzer shards x -runs={runs} over the same strategy "
+            f"(atheris, gtirb_rewriting instrumented)")
+        return parts + [note.to_dict()]
+    finally:
+        shutil.rmtree(work, ignore_errors=True)
+
+
+# --------------------------------------------------------------------------
 # Top-level driver
 # --------------------------------------------------------------------------
 def run_property(prop_id: str, tier: str, seed: int, jobs: int) -> int:
@@ -431,6 +490,7 @@ def run_property(prop_id: str, tier: str, seed: int, jobs: int) -> int:
     parts = run_workers(prop_id, tier, seed, jobs)
     if hasattr(mod, "extra"):
         parts.extend(mod.extra(tier, seed, jobs))
+    parts.extend(fuzz_stage(mod, prop_id, tier, seed, jobs))
     total = merge(parts)
 
     if total["harness_errors"]:
